@@ -230,18 +230,30 @@ def match_finding(findings, sig):
 # ---------------------------------------------------------------- main check
 
 def evaluate(mod, cases, procs):
-    impl = run_impl_all(mod.__name__, cases, procs)
-    lines = []
-    for i, (c, o) in enumerate(zip(cases, impl)):
-        minp = c.input
-        if isinstance(o, dict) and "__model_input__" in o:
-            # the case is a *specification* (request + simulated device); the implementation run
-            # recorded what the device answered, and that record is the model's script
-            minp = o["__model_input__"]
-            impl[i] = o = o["out"]
-        lines.append(c.op + " " + wire.enc(minp) + " " + wire.enc(o))
-    drv = run_driver(lines)
-    return impl, drv, lines
+    """runs the implementation and the model driver on `cases`, in chunks so that the wire lines (the bulk of
+    the memory: request + recorded script + output per case) never exist for more than one chunk"""
+    chunk = int(os.environ.get("VERIF_CHUNK", "40000"))
+    impl, drv = [], []
+    for start in range(0, len(cases), chunk):
+        part = cases[start:start + chunk]
+        pimpl = run_impl_all(mod.__name__, part, procs)
+        lines = []
+        for i, (c, o) in enumerate(zip(part, pimpl)):
+            minp = c.input
+            if isinstance(o, dict) and "__model_input__" in o:
+                # the case is a *specification* (request + simulated device); the implementation run
+                # recorded what the device answered, and that record is the model's script
+                minp = o["__model_input__"]
+                pimpl[i] = o = o["out"]
+            lines.append(c.op + " " + wire.enc(minp) + " " + wire.enc(o))
+        pdrv = run_driver(lines)
+        del lines
+        if len(cases) > chunk:
+            # keep the model's output only where it matters (disagreement or oracle failure)
+            pdrv = [d if (d[0] != "EQ" or d[1] != "OK") else (d[0], d[1], "") for d in pdrv]
+        impl += pimpl
+        drv += pdrv
+    return impl, drv, None
 
 
 def check(pid, tier, seed, replay=None):
